@@ -14,13 +14,13 @@ def props_for(files):
     props = set()
     for u in units:
         texts = [json.dumps(u)]
-        if u.get("template"):
+        if u.get("template") and not u["template"].startswith("@"):
             t = open(os.path.join(ROOT, u["template"])).read()
             for k, v in (u.get("vars") or {}).items():
                 t = t.replace("{{" + k + "}}", v)
             texts.append(t)
         blob = "\n".join(texts)
-        if any(f in blob for f in files):
+        if any(f in blob for f in files) or any(src in f for src in u.get("sources", []) for f in files):
             props.add(u["property"]); props.update(u.get("also", []))
     claimed = [c["property_id"] for c in json.load(open(os.path.join(ROOT, "MANIFEST.json")))["checks"]]
     return sorted(p for p in props if p in claimed)
